@@ -244,3 +244,63 @@ def run(rep: Report, prog: Program, tier: str) -> None:
     from .common import import_rules
     import_rules(rep, prog, tier, PROP, "C01-ABANDON", "C06", ["C06-WHOLE", "C06-RECV"],
                  "abandonment / FORWARD-TSN handling never loses or blocks messages of other (reliable) channels (rules C06-WHOLE, C06-RECV)", 100)
+
+    # ---------------- C01-REASM: _receive_data_chunk evaluated over every arrival order of small interleaved message sets
+    rep.rule("C01-REASM", "every arrival order (with a duplicate) of interleaved messages on two streams: exactly once, intact, in order, nothing left behind", min_instances=100)
+    from .sctpmodel import build
+    hook3, chunk3, message3 = build(prog)
+    rdc_f = prog.func(T + "._receive_data_chunk")
+
+    def family(origin: int, s1_unordered: bool):
+        # (label, messages) — messages are lists of chunks; TSNs interleave the two streams
+        t = lambda k: (origin + k) % (1 << 32)  # noqa: E731
+        f1 = [message3(t(0), 1, 0, 1, s1_unordered, None, "A"), message3(t(1), 2, 0, 1, False, None, "C"), message3(t(2), 1, 1, 1, s1_unordered, None, "B")]
+        a = message3(t(0), 1, 0, 2, s1_unordered, None, "A")
+        f2 = [a, message3(t(2), 2, 0, 1, False, None, "C"), message3(t(3), 1, 1, 1, s1_unordered, None, "B"), message3(t(4), 2, 1, 1, False, None, "D")]
+        return [("A | C | B", f1), ("A(2 fragments) | C | B | D", f2)]
+    origins = [10, (1 << 32) - 2] if tier == "thorough" else [10]
+    n_orders = 0
+    for origin, unord in itertools.product(origins, (False, True)):
+        for fam_label, msgs in family(origin, unord):
+            chunks = [c for m in msgs for c in m]
+            for perm in itertools.permutations(range(len(chunks))):
+                for dup in ([None] if len(chunks) > 4 and tier != "thorough" else [None, perm[0], perm[-1]]):
+                    order = list(perm) + ([] if dup is None else [dup])
+                    n_orders += 1
+                    me = SimpleNamespace(__cls__=tcls, _last_received_tsn=(origin - 1) % (1 << 32), _sack_needed=False, _sack_duplicates=[], _sack_misordered=set(), _inbound_streams={},
+                                         _inbound_streams_max=65535, _advertised_rwnd=100000, delivered=[])
+                    label = f"{fam_label}, stream 1 {'unordered' if unord else 'ordered'}, first TSN {origin}, arrival order {[chunks[i].tsn for i in order]}"
+                    prefix_ok = True
+                    try:
+                        for i in order:
+                            c = chunks[i]
+                            cc = SimpleNamespace(**vars(c))
+                            hook3.run_method(rdc_f, me, [cc], {})
+                            if not unord:
+                                seq1 = [bytes(d[2]) for d in me.delivered if d[0] == 1]
+                                want1 = [b"".join(x.user_data for x in m) for m in msgs if m[0].stream_id == 1]
+                                prefix_ok = prefix_ok and seq1 == want1[:len(seq1)]
+                    except Raised as ex:
+                        rep.fail(mk_finding(prog, PROP, "C01-REASM", rdc_f, getattr(ex, "node", None), f"[{label}] raises {ex.name}", construct=f"reassembly raises {ex.name}"))
+                        continue
+                    except Unknown as ex:
+                        raise AnalysisError(f"C01-REASM cannot evaluate [{label}]: {ex}")
+                    problems = []
+                    for sid in (1, 2):
+                        got = [bytes(d[2]) for d in me.delivered if d[0] == sid]
+                        want = [b"".join(x.user_data for x in m) for m in msgs if m[0].stream_id == sid]
+                        if (sorted(got) != sorted(want)) if (sid == 1 and unord) else (got != want):
+                            missing = [w for w in want if w not in got]
+                            problems.append(f"stream {sid} delivered {got}, sent {want}" + (f" — {missing} complete but never delivered" if missing and len(got) < len(want) else ""))
+                    if not prefix_ok:
+                        problems.append("at some instant the ordered stream's deliveries were not a prefix of what was sent")
+                    left = {k: [x.tsn for x in v.reassembly] for k, v in me._inbound_streams.items() if v.reassembly}
+                    if left and not problems:
+                        problems.append(f"chunks {left} stay in the reassembly queues although everything has arrived")
+                    if problems:
+                        pm_f = prog.func("rtcsctptransport.InboundStream.pop_messages")
+                        rep.fail(mk_finding(prog, PROP, "C01-REASM", pm_f, pm_f.node, f"[{label}] " + "; ".join(problems), construct="reassembly: " + problems[0].split(" delivered ")[0][:40] + (" unordered" if unord else " ordered")))
+                    else:
+                        rep.ok("C01-REASM", label, sample=f"{len(me.delivered)} messages delivered, queues empty")
+    if n_orders < 100:
+        raise AnalysisError("C01-REASM enumerated fewer arrival orders than expected")
